@@ -78,6 +78,10 @@ func genIndexed(prop string, seed uint64, run int, stream uint64, uniquePct int,
 			tp.Ops = append(tp.Ops, Op{K: "restart"})
 		}
 	}
+	if r.IntN(10) == 0 {
+		// a commit that fails in the store: its index changes and documents must not stay behind
+		p.Faults = append(p.Faults, Fault{Kind: "store-before", At: 1 + r.IntN(len(tp.Ops))})
+	}
 	p.Tasks = []TaskPlan{tp}
 	return p
 }
